@@ -19,7 +19,7 @@ def fixed_workload(spec):
         ops = []
         for o in p["ops"]:
             op = pl.new_operator([ops[i] for i in o["parents"]] if o["parents"] else None)
-            op.add_segment(Segment(baseline_cpu_seconds=o["ticks"] / spec["tps"], cpu_scaling="const", memory_gb=o["mem"], storage_read_gb=0))
+            op.add_segment(Segment(baseline_cpu_seconds=o["ticks"] / spec["tps"], cpu_scaling="const", memory_gb=o["mem"], storage_read_gb=o.get("read", 0)))
             ops.append(op)
         pls.append(pl)
 
